@@ -1047,6 +1047,12 @@ class AccessorEval:
         rec.fields[name] = value
 
     def call_method(self, rec, name, args, kwargs):
+        fv = rec.fields.get(name)
+        if rec.cls is None and isinstance(fv, tuple) and len(fv) == 2 and fv[0] == "<function>":
+            # a plain model object that carries the method as a callable field (a model file, a recorder)
+            return fv[1](list(args), dict(kwargs)) if callable(fv[1]) else self.run_free(fv[1], list(args), dict(kwargs))
+        if rec.cls is None and self.cls is None:
+            raise Raised("AttributeError")
         m = (rec.cls or self.cls).methods.get(name)
         if m is None:
             raise NotSymbolic(f"method {name}")
